@@ -10,8 +10,8 @@ LEVEL = 'exploration'
 
 def sizes(ctx):
     if ctx.tier == 'quick':
-        return dict(cases=20, pure_cases=8, inputs=10)
-    return dict(cases=200, pure_cases=80, inputs=40)
+        return dict(cases=20, pure_cases=8, enum_cases=16, inputs=10)
+    return dict(cases=200, pure_cases=80, enum_cases=160, inputs=40)
 
 
 BIG = lambda v: v * 1000003 + 17                      # small ints -> large sparse i64
@@ -60,11 +60,17 @@ def gen_cases(ctx):
     sz = sizes(ctx)
     cases = []
     n = 0
-    total = sz['cases'] + sz['pure_cases']
+    total = sz['cases'] + sz['pure_cases'] + sz['enum_cases']
     while n < total:
         rng = random.Random(ctx.rng.getrandbits(48))
-        pure = n >= sz['cases']
-        if pure:
+        pure = sz['cases'] <= n < sz['cases'] + sz['pure_cases']
+        enum = n >= sz['cases'] + sz['pure_cases']
+        if enum:
+            # rule shapes `[binder]? cl1, cl2` from the enumerated space: the order of the two clauses (and of the binder
+            # relative to them, where scoping allows) must not matter, whatever the size ratio of the relations
+            dom = rng.choice([3, 4])
+            prog, input_rels, _ = G.enumerated_program(rng, nrules=12, dom=dom)
+        elif pure:
             dom = rng.choice([3, 4, 5])
             prog, input_rels = G.gen_pure_program(rng, dom)
         else:
@@ -74,10 +80,10 @@ def gen_cases(ctx):
             prog, input_rels = G2.gen_program(rng, cfg)
         assert not G.check_scoping(prog), (G.check_scoping(prog), prog.text())
         vds = make_variants(rng, prog, pure)
-        case = P.Case('c%d' % n, prog, [v for v, _ in vds], meta={'kind': 'pure' if pure else 'general', 'variants': [d for _, d in vds]})
+        case = P.Case('c%d' % n, prog, [v for v, _ in vds], meta={'kind': 'enumerated' if enum else 'pure' if pure else 'general', 'variants': [d for _, d in vds]})
         loadable = [r.name for r in prog.rels]
         for ii in range(sz['inputs']):
-            rows = G.gen_input(rng, prog, input_rels if rng.random() < 0.6 else loadable, dom)
+            rows = G.enumerated_input(rng, dom) if enum else G.gen_input(rng, prog, input_rels if rng.random() < 0.6 else loadable, dom)
             seen, uniq = set(), []
             for r in rows:
                 if r not in seen:
